@@ -103,9 +103,11 @@ def rand_simple_zx(rng, n_in, n_boxes):
         width = len(scan)
         r = rng.random()
         if r < .12:
-            box, off = zx.scalar(complex(round(rng.uniform(-1, 1), 2),
-                                         round(rng.uniform(-1, 1), 2))),\
-                rng.randint(0, width)
+            # complex, float and INT scalars (0, 1 and powers of two included)
+            value = complex(round(rng.uniform(-1, 1), 2), round(rng.uniform(-1, 1), 2))\
+                if rng.random() < .6 else rng.choice(
+                    [0, 1, 2, 4, 3, -1, 8, 0.0, 0.5, 2.0, -0.25])
+            box, off = zx.scalar(value), rng.randint(0, width)
             new = []
             span = 0
             features.add("scalar")
